@@ -371,7 +371,7 @@ def family(tier, seed):
             return AND(lt(I[0], 1 << bl), *rng, eq(I[0], e.named_sum([((1 << ls) ** i, o) for i, o in enumerate(O)])))
         return spec
     for bl, ls in ([(20, 12), (24, 12), (20, 8), (13, 5), (30, 16)] if tier == "quick" else [(20, 12), (24, 12), (20, 8), (16, 8), (13, 5), (30, 16), (33, 16), (64, 24), (100, 64), (9, 9)]):
-        E.append(entry("decompose_fixed", S_decompose_fixed(bl, ls), [(1 << bl) - 1], {"bit_length": bl, "limb_size": ls}, alt=[[0], [1], [(1 << ls) - 1], [1 << ls]]))
+        E.append(entry("decompose_fixed", S_decompose_fixed(bl, ls), [(1 << bl) - 1], {"bit_length": bl, "limb_size": ls}, alt=[[v] for v in (0, 1, (1 << ls) - 1, 1 << ls) if v < (1 << bl)]))   # admissible inputs only (x < 2^bit_length)
     # ---- chains through NativeGadget's bound cache (record a bound, then an operation that skips constraints because of it) ----
     for bound in [1, 200, 255, 256, 257]:
         E.append(entry("cache_byte_lt", lambda e, I, O, b=bound: AND(lt(I[0], 256), lt(I[0], b)), [min(bound, 256) - 1], {"bound": bound}, alt=[[0]]))
